@@ -95,8 +95,17 @@ def sensitivity(pids: list[str], runs: int) -> int:
                                 "--no-evidence"], cwd=VERIF, text=True, capture_output=True, timeout=1800)
             found = p.returncode == 1 and "VIOLATION property=" in p.stdout
             clauses = sorted({ln.split("clause=")[1].split()[0] for ln in p.stdout.splitlines() if "clause=" in ln})
+            # the minimised replay file must reproduce the same violation, bit-identically, in a fresh process
+            replayed = "-"
+            if found:
+                path = next(ln.split("replay=")[1].strip() for ln in p.stdout.splitlines() if ln.startswith("VIOLATION property="))
+                q = subprocess.run([os.path.join(VERIF, "check"), pid, "--replay", path, "--mutant", m], cwd=VERIF, text=True,
+                                   capture_output=True, timeout=600)
+                ok = q.returncode == 1 and "trace digest identical" in q.stdout
+                replayed = "replay-ok" if ok else f"REPLAY-FAILED(rc={q.returncode})"
+                bad += not ok
             print(f"sensitivity {pid} mutant {m}: {'caught' if found else 'MISSED'} rc={p.returncode} "
-                  f"clauses={clauses} {time.time() - t0:.1f}s")
+                  f"clauses={clauses} {replayed} {time.time() - t0:.1f}s")
             bad += not found
     return bad
 
